@@ -6,6 +6,8 @@ import SqlObjVerif.Lemmas.DdlXSql
 import SqlObjVerif.Lemmas.DdlXStyle
 import SqlObjVerif.Lemmas.DdlXJoin
 import SqlObjVerif.Lemmas.DdlXWMain
+import SqlObjVerif.Lemmas.DdlXWCreate
+import SqlObjVerif.Lemmas.DdlXWCol
 /-!
 # C14 — the generated schema matches the class declaration, in every dialect
 
@@ -221,7 +223,8 @@ open SqlObjVerif.PyDdl.Extracted (prog M__extraSQL M_createColumn M_createIDColu
   F_mixedToUnder F_underToMixed F_capword F_lowerword M_pythonAttrToDBColumn M_dbColumnToPythonAttr
   M_pythonClassToDBTable M_tableReference M_idForTable M_instanceAttrToIDAttr M_pythonClassToAttr
   C_SQLObject M__getJoinsToCreate M_createJoinTablesSQL M_createIndexSQL M_createJoinTables M_dropJoinTables
-  M_dropTable M_createTable M__SO_createJoinTable M__SO_createIndex)
+  M_dropTable M_createTable M__SO_createJoinTable M__SO_createIndex M_createIndexes M_addColumn M_delColumn
+  C_SQLiteConnection)
 open SqlObjVerif.PyDdl (callNW)
 
 /-- `SOCol._extraSQL` = `extraPieces` (NOT NULL / UNIQUE / DEFAULT in source order) on every column class -/
@@ -460,18 +463,19 @@ theorem C14_translated_indexSQL_eq_model (n : Nat) (d : Dialect) (c : Caps) (dec
       .ok (.str (indexSQL d decl ix)) := createIndexSQL_eq n d c decl c0 x ix
 
 /-- the statements of the connection classes against the catalogue: `_SO_createJoinTable` (CREATE TABLE of the link
-    table), `_SO_createIndex` (not MySQL), `createTable` of the classes that use `DBAPI.createTable` -/
+    table), `_SO_createIndex` (not MySQL), `createTable` of all seven classes (Firebird / MaxDB: plus the generator / sequence
+    statement) -/
 theorem C14_translated_conn_statements_eq_model (n : Nat) (d : Dialect) (c : Caps) (decl : Decl) (c0 : Val) (w : Cat)
     (j : JoinD) (ix : Index) (hj : 32 ∉ j.join.table) (ht : 32 ∉ decl.tableName) (hi : 32 ∉ ix.name) :
     callNW prog ddlI EX (n + 3) w (.meth (connCls d) M__SO_createJoinTable) [connV d c, jV j] =
       createRes j.join.table .none w ∧
     (d ≠ .mysql → callNW prog ddlI EX (n + 3) w (.meth (connCls d) M__SO_createIndex)
         [connV d c, soClassV decl c0 x, ixV decl ix] = indexRes decl.tableName ix.name w) ∧
-    (plainConn d → ∀ text, createTableSQL Extracted.tables d c decl = some text →
+    (∀ text, createTableSQL Extracted.tables d c decl = some text →
       callNW prog ddlI EX (n + 10) w (.meth (connCls d) M_createTable) [connV d c, soClassV decl c0 x] =
         createRes decl.tableName (strList (constraints Extracted.tables d decl)) w) :=
   ⟨connCreateJoinTable n d c j w hj, fun hd => connCreateIndex n d hd c decl c0 x ix w ht hi,
-   fun hd text h => connCreateTable n d hd c decl c0 w text h ht⟩
+   fun text h => connCreateTable n d c decl c0 w text h ht⟩
 
 /-- `SQLObject.createJoinTables(ifNotExists, connection)` = `createLinks` over `linksOf true` of the owned link tables -/
 theorem C14_translated_createJoinTables_eq_model (n : Nat) (d : Dialect) (c : Caps) (decl : Decl) (c0 : Val) (ine : Bool)
@@ -488,34 +492,127 @@ theorem C14_translated_dropJoinTables_eq_model (n : Nat) (d : Dialect) (c : Caps
       (dropLinks ie (linksOf true (linkNames x.joins)) w) := dropJoinTables_eq n d c decl c0 ie w hb
 
 /-- **`SQLObject.dropTable(ifExists, dropJoinTables, cascade, connection)` translated = `dropTableG`** with the flags
-    extracted from the source, on the connection classes that use `DBAPI.dropTable` / PostgreSQL's (table and link
-    table names without blanks) -/
-theorem C14_translated_dropTable_eq_model (n : Nat) (d : Dialect) (hd : plainConn d) (c : Caps) (decl : Decl) (c0 : Val)
+    extracted from the source, for all seven connection classes (PostgreSQL's `… CASCADE`, Firebird's / MaxDB's second
+    statement; table and link table names without blanks) -/
+theorem C14_translated_dropTable_eq_model (n : Nat) (d : Dialect) (c : Caps) (decl : Decl) (c0 : Val)
     (ie dj cas : Bool) (w : Cat) (idx : List Name)
     (hb : 32 ∉ decl.tableName) (hbl : ∀ j ∈ joinsToCreateX x.joins, 32 ∉ j.join.table) :
     agreesW (callNW prog ddlI EX (n + 3) w (.meth C_SQLObject M_dropTable)
         [soClassV decl c0 x, .bool ie, .bool dj, .bool cas, connV d c])
       (dropTableG Extracted.dropPassesIfExists Extracted.dropDedupes ie dj ⟨decl.tableName, linkNames x.joins, idx⟩ w) :=
-  dropTable_eq n d hd c decl c0 ie dj cas w idx hb hbl
+  dropTable_eq n d c decl c0 ie dj cas w idx hb hbl
 
 /-- **Drop-if-present never fails and is idempotent, about the translated source**: the translated
     `dropTable(ifExists=True, …)` ends normally whatever the catalogue holds, the table is gone, and running it again
     from the resulting catalogue changes nothing -/
-theorem C14_translated_drop_idempotent (n : Nat) (d : Dialect) (hd : plainConn d) (c : Caps) (decl : Decl) (c0 : Val)
+theorem C14_translated_drop_idempotent (n : Nat) (d : Dialect) (c : Caps) (decl : Decl) (c0 : Val)
     (dj cas : Bool) (w : Cat) (hb : 32 ∉ decl.tableName) (hbl : ∀ j ∈ joinsToCreateX x.joins, 32 ∉ j.join.table) :
     ∃ v w1, callNW prog ddlI EX (n + 3) w (.meth C_SQLObject M_dropTable)
         [soClassV decl c0 x, .bool true, .bool dj, .bool cas, connV d c] = (.ok v, w1) ∧ decl.tableName ∉ w1.tables ∧
       ∃ v', callNW prog ddlI EX (n + 3) w1 (.meth C_SQLObject M_dropTable)
         [soClassV decl c0 x, .bool true, .bool dj, .bool cas, connV d c] = (.ok v', w1) := by
   obtain ⟨w1, h1, hnot⟩ := C14_drop_if_present_never_fails dj ⟨decl.tableName, linkNames x.joins, []⟩ w
-  have ha := dropTable_eq (x := x) n d hd c decl c0 true dj cas w [] hb hbl
+  have ha := dropTable_eq (x := x) n d c decl c0 true dj cas w [] hb hbl
   rw [h1] at ha
   obtain ⟨v, hv⟩ := agreesW_ok ha
   have h2 := C14_drop_if_present_idempotent_flags dj ⟨decl.tableName, linkNames x.joins, []⟩ w w1 h1
-  have hb2 := dropTable_eq (x := x) n d hd c decl c0 true dj cas w1 [] hb hbl
+  have hb2 := dropTable_eq (x := x) n d c decl c0 true dj cas w1 [] hb hbl
   rw [h2] at hb2
   obtain ⟨v', hv'⟩ := agreesW_ok hb2
   exact ⟨v, w1, hv, hnot, v', hv'⟩
+
+/-- `SQLObject.createIndexes(ifNotExists, connection)` = `createIdx` (the flag is ignored; not MySQL) -/
+theorem C14_translated_createIndexes_eq_model (n : Nat) (d : Dialect) (hd : d ≠ .mysql) (c : Caps) (decl : Decl)
+    (c0 : Val) (ine : Bool) (w : Cat) (ht : 32 ∉ decl.tableName) (hb : ∀ ix ∈ decl.indexes, 32 ∉ ix.name) :
+    agreesW (callNW prog ddlI EX (n + 4) w (.meth C_SQLObject M_createIndexes)
+        [soClassV decl c0 x, .bool ine, connV d c])
+      (createIdx decl.tableName (decl.indexes.map (·.name)) w) := createIndexes_eq n d hd c decl c0 ine w ht hb
+
+/-- **`SQLObject.createTable(ifNotExists, createJoinTables, createIndexes=True, applyConstraints, connection)`
+    translated = `createTableG`** with the flags extracted from the source: the `tableExists` early return, the CREATE
+    TABLE statement of `conn.createTable`, the constraint statements (executed or handed back: no catalogue effect),
+    `createJoinTables` with the flag handed on, `createIndexes`.  Every connection class but MySQL's;
+    the declaration is one the renderer accepts; table / link table / index names without blanks. -/
+theorem C14_translated_createTable_eq_model (n : Nat) (d : Dialect) (hmy : d ≠ .mysql) (c : Caps)
+    (decl : Decl) (c0 : Val) (ine cj ac : Bool) (w : Cat) (text : Str)
+    (ht : createTableSQL Extracted.tables d c decl = some text)
+    (hb : 32 ∉ decl.tableName) (hbl : ∀ j ∈ joinsToCreateX x.joins, 32 ∉ j.join.table)
+    (hbi : ∀ ix ∈ decl.indexes, 32 ∉ ix.name) :
+    agreesW (callNW prog ddlI EX (n + 11) w (.meth C_SQLObject M_createTable)
+        [soClassV decl c0 x, .bool ine, .bool cj, .bool true, .bool ac, connV d c])
+      (createTableG Extracted.createPassesIfNotExists Extracted.createDedupes ine cj
+        ⟨decl.tableName, linkNames x.joins, decl.indexes.map (·.name)⟩ w) :=
+  createTable_eq n d hmy c decl c0 ine cj ac w text ht hb hbl hbi
+
+/-- **Create-if-missing is idempotent, about the translated source**: when the translated
+    `createTable(ifNotExists=True, …)` ends normally in catalogue `w1`, running it again from `w1` ends normally in `w1` -/
+theorem C14_translated_create_idempotent (n : Nat) (d : Dialect) (hmy : d ≠ .mysql) (c : Caps)
+    (decl : Decl) (c0 : Val) (cj ac : Bool) (w w1 : Cat) (v : Val) (text : Str)
+    (ht : createTableSQL Extracted.tables d c decl = some text)
+    (hb : 32 ∉ decl.tableName) (hbl : ∀ j ∈ joinsToCreateX x.joins, 32 ∉ j.join.table)
+    (hbi : ∀ ix ∈ decl.indexes, 32 ∉ ix.name)
+    (h : callNW prog ddlI EX (n + 11) w (.meth C_SQLObject M_createTable)
+        [soClassV decl c0 x, .bool true, .bool cj, .bool true, .bool ac, connV d c] = (.ok v, w1)) :
+    ∃ v', callNW prog ddlI EX (n + 11) w1 (.meth C_SQLObject M_createTable)
+        [soClassV decl c0 x, .bool true, .bool cj, .bool true, .bool ac, connV d c] = (.ok v', w1) := by
+  have h1 := agreesW_ok_inv (createTable_eq (x := x) n d hmy c decl c0 true cj ac w text ht hb hbl hbi) h
+  have h2 := C14_create_if_missing_idempotent_flags cj _ w w1 h1
+  have h3 := createTable_eq (x := x) n d hmy c decl c0 true cj ac w1 text ht hb hbl hbi
+  rw [h2] at h3
+  exact agreesW_ok h3
+
+/-- **Plain create then plain drop, about the translated source**: what the translated `createTable()` made, the
+    translated `dropTable()` removes again — it ends normally and the table list is as before — for every set of
+    joins, including a link table owned twice (self-referential join declared in both directions) -/
+theorem C14_translated_create_drop_idempotent (n m : Nat) (d : Dialect) (hmy : d ≠ .mysql) (c : Caps)
+    (decl : Decl) (c0 : Val) (ac cas : Bool) (w w1 : Cat) (v : Val) (text : Str)
+    (ht : createTableSQL Extracted.tables d c decl = some text)
+    (hb : 32 ∉ decl.tableName) (hbl : ∀ j ∈ joinsToCreateX x.joins, 32 ∉ j.join.table)
+    (hbi : ∀ ix ∈ decl.indexes, 32 ∉ ix.name)
+    (h : callNW prog ddlI EX (n + 11) w (.meth C_SQLObject M_createTable)
+        [soClassV decl c0 x, .bool false, .bool true, .bool true, .bool ac, connV d c] = (.ok v, w1)) :
+    ∃ v' w2, callNW prog ddlI EX (m + 3) w1 (.meth C_SQLObject M_dropTable)
+        [soClassV decl c0 x, .bool false, .bool true, .bool cas, connV d c] = (.ok v', w2) ∧ w2.tables = w.tables := by
+  have h1 := agreesW_ok_inv (createTable_eq (x := x) n d hmy c decl c0 false true ac w text ht hb hbl hbi) h
+  obtain ⟨w2, h2, h3⟩ := C14_plain_drop_after_create _ w w1 h1
+  have h4 := dropTable_eq (x := x) m d c decl c0 false true cas w1 (decl.indexes.map (·.name)) hb hbl
+  rw [h2] at h4
+  obtain ⟨v', hv'⟩ := agreesW_ok h4
+  exact ⟨v', w2, hv', h3⟩
+
+/-! #### schema evolution: the statements of `addColumn` / `delColumn` (world = the statement log `ELog`) -/
+
+/-- **`<Connection>.addColumn(tableName, column)` translated issues exactly `addColumnStmts`**: `ALTER TABLE t ADD
+    [COLUMN] <colText>` (`COLUMN` omitted on Firebird / MSSQL / MaxDB), followed by `VACUUM` on SQLite — all seven
+    connection classes, every column declaration the renderer accepts -/
+theorem C14_translated_addColumn_eq_model (n : Nat) (d : Dialect) (c : Caps) (st : Style) (tb : Str) (c0 : Val) (col : Col)
+    (t text : Str) (log : List Str) (ht : colText Extracted.tables d c st col = some text) :
+    callNW prog ddlI ELog (n + 6) log (.meth (connCls d) M_addColumn)
+        [connV d c, .str t, colV Extracted.tables st tb c0 col] =
+      (.ok .none, log ++ addColumnStmts d t text) := addColumn_log n d c st tb c0 col t text log ht
+
+/-- **`<Connection>.delColumn(sqlmeta, column)` translated issues exactly `delColumnStmts`**: one `ALTER TABLE t DROP
+    [COLUMN] <db name>` — every connection class but SQLite's, which re-creates the table (next theorem) -/
+theorem C14_translated_delColumn_eq_model (n : Nat) (d : Dialect) (hd : d ≠ .sqlite) (c : Caps) (decl : Decl) (c0 : Val)
+    (col : Col) (log : List Str) :
+    callNW prog ddlI ELog (n + 1) log (.meth (connCls d) M_delColumn)
+        [connV d c, metaV decl c0 x, colV Extracted.tables decl.style decl.tableName c0 col] =
+      (.ok .none, log ++ delColumnStmts d decl.tableName (col.db decl.style)) := delColumn_log n d hd c decl c0 x col log
+
+/-- the full statement "delColumn keeps the declared indexes of the table" is FALSE of the translated
+    `SQLiteConnection.delColumn` → `recreateTableWithoutColumn` (RENAME, CREATE TABLE, INSERT … SELECT, DROP TABLE of
+    the renamed original; no index statement): run against the catalogue whose reader follows the RENAME, the index of
+    the witness class is gone.  This is the open finding `C14:evolution:delcolumn-drops-indexes`, now also a theorem
+    about the translated source. -/
+theorem C14_translated_delColumn_drops_indexes_full_FALSE :
+    ¬ (∀ (decl : Decl) (victim : Col) (w w' : Cat) (v : Val),
+        callNW prog ddlI EX2 12 w (.meth C_SQLiteConnection M_delColumn)
+          [connV .sqlite ⟨false, false⟩, metaV decl .none ⟨[], .none⟩,
+            colV Extracted.tables decl.style decl.tableName .none victim] = (.ok v, w') →
+        ∀ p ∈ w.indexes, p.1 = decl.tableName → p ∈ w'.indexes) := by
+  intro h
+  have h1 := h witDecl witVictim witCat ⟨[[116]], []⟩ .none delColumn_witness ([116], [105]) (by decide) rfl
+  simp at h1
 
 end Translated
 
